@@ -290,6 +290,8 @@ impl<'tcx> Cx<'tcx> {
                                     o.s("str", &String::from_utf8_lossy(bytes));
                                 }
                             }
+                        } else if let Some(bytes) = self.byte_array_ref(v, *t) {
+                            o.s("bytes", &String::from_utf8_lossy(&bytes));
                         } else if let Some(si) = v.try_to_scalar_int() {
                             let bits = si.to_bits_unchecked();
                             o.raw("int", &format!("\"{}\"", bits));
@@ -310,6 +312,26 @@ impl<'tcx> Cx<'tcx> {
             }
         }
         o.end();
+    }
+
+    /// Bytes behind a `&[u8; N]` constant (the new `format_args!` lowering encodes its template this way).
+    fn byte_array_ref(&self, v: &ConstValue, t: Ty<'tcx>) -> Option<Vec<u8>> {
+        let ty::Ref(_, inner, _) = t.kind() else { return None };
+        let ty::Array(elem, len) = inner.kind() else { return None };
+        if *elem != self.tcx.types.u8 {
+            return None;
+        }
+        let n = len.try_to_target_usize(self.tcx)? as usize;
+        let ConstValue::Scalar(mir::interpret::Scalar::Ptr(ptr, _)) = v else { return None };
+        let (prov, offset) = ptr.prov_and_relative_offset();
+        let alloc = self.tcx.global_alloc(prov.alloc_id());
+        let mir::interpret::GlobalAlloc::Memory(mem) = alloc else { return None };
+        let a = mem.inner();
+        let start = offset.bytes() as usize;
+        if start + n > a.len() {
+            return None;
+        }
+        Some(a.inspect_with_uninit_and_ptr_outside_interpreter(start..start + n).to_vec())
     }
 
     fn rvalue(&self, out: &mut String, body: &Body<'tcx>, rv: &Rvalue<'tcx>) {
